@@ -314,6 +314,9 @@ def run_case(case):
     counters["max_in_flight_sum"] = ps.max_in_flight
     counters["pools_created"] = ps.pools_created
     counters["mp_chunks"] = ps.chunks
+    if ps.timeouts_armed:
+        counters["deadlines_on_virtual_clock"] = ps.timeouts_armed
+        counters["deadlines_expired"] = ps.timeouts_expired
     for k in fired:
         counters["fault:" + k] = 1
     if fired:
